@@ -1,6 +1,7 @@
 package main
 
 import (
+	"go/token"
 	"fmt"
 	"go/types"
 	"os"
@@ -37,6 +38,8 @@ type Engine struct {
 	funcIDs         map[*ssa.Function]int
 	known           []*KnownFinding
 	replayOracles   map[string]string
+	errGlobals      map[string]int // "glob:pkg.Var" of error variables initialised once by errors.New and never written again
+	errGlobalNames  []string
 }
 
 func (e *Engine) isRepoPkg(path string) bool {
@@ -101,7 +104,88 @@ func loadEngine(repo, verif string) (*Engine, error) {
 		}
 		e.funcs[e.canon(fn)] = fn
 	}
+	e.findErrGlobals()
 	return e, nil
+}
+
+// findErrGlobals: package-level variables of type error whose only write in the loaded program is the
+// `var X = errors.New(...)` initialiser and whose address is never taken are constants: non-nil, pairwise distinct
+// pointers to errors.errorString.  The scan is over the SSA of every loaded repository function.
+func (e *Engine) findErrGlobals() {
+	e.errGlobals = map[string]int{}
+	cand := map[*ssa.Global]bool{}
+	for _, sp := range e.prog.AllPackages() {
+		if !e.isRepoPkg(sp.Pkg.Path()) {
+			continue
+		}
+		init := sp.Func("init")
+		if init == nil {
+			continue
+		}
+		for _, b := range init.Blocks {
+			for _, in := range b.Instrs {
+				st, ok := in.(*ssa.Store)
+				if !ok {
+					continue
+				}
+				g, ok := st.Addr.(*ssa.Global)
+				if !ok || g.Type().(*types.Pointer).Elem().String() != "error" {
+					continue
+				}
+				if c, ok := st.Val.(*ssa.Call); ok {
+					if f := c.Call.StaticCallee(); f != nil && f.String() == "errors.New" {
+						if _, seen := cand[g]; seen {
+							cand[g] = false
+						} else {
+							cand[g] = true
+						}
+					}
+				}
+			}
+		}
+	}
+	for fn := range ssautil.AllFunctions(e.prog) {
+		if fn.Pkg == nil || !e.isRepoPkg(fn.Pkg.Pkg.Path()) {
+			continue
+		}
+		isInit := fn.Name() == "init" && fn.Parent() == nil
+		for _, b := range fn.Blocks {
+			for _, in := range b.Instrs {
+				for _, op := range in.Operands(nil) {
+					g, ok := (*op).(*ssa.Global)
+					if !ok || !cand[g] {
+						continue
+					}
+					switch x := in.(type) {
+					case *ssa.UnOp:
+						if x.Op == token.MUL {
+							continue
+						}
+					case *ssa.Store:
+						if isInit && x.Addr == g {
+							if c, ok := x.Val.(*ssa.Call); ok && c.Call.StaticCallee() != nil && c.Call.StaticCallee().String() == "errors.New" {
+								continue
+							}
+						}
+					case *ssa.DebugRef:
+						continue
+					}
+					cand[g] = false
+				}
+			}
+		}
+	}
+	var names []string
+	for g, ok := range cand {
+		if ok {
+			names = append(names, "glob:"+e.pkgRepl.Replace(g.String()))
+		}
+	}
+	sort.Strings(names)
+	for i, n := range names {
+		e.errGlobals[n] = i
+	}
+	e.errGlobalNames = names
 }
 
 // canon returns the canonical (short-package) name of a function.
@@ -194,4 +278,13 @@ func (e *Engine) tagOf(t types.Type) int {
 	e.tagList = append(e.tagList, k)
 	e.tagType[k] = t
 	return id
+}
+
+func (e *Engine) errorStringType() types.Type {
+	if sp := e.spkgs["errors"]; sp != nil {
+		if m, ok := sp.Members["errorString"].(*ssa.Type); ok {
+			return m.Type()
+		}
+	}
+	panic(unsupported("errors.errorString not loaded"))
 }
